@@ -660,7 +660,12 @@ class TransverselyIsotropic(_Elastic):
 
         kt = self.kt
 
-        dtype = object if isinstance(kt, np.ndarray) else float
+        # kt gathers El, Et, vl and vt; Gl enters the matrices on its own
+        dtype = (
+            object
+            if isinstance(kt, np.ndarray) or isinstance(Gl, np.ndarray)
+            else float
+        )
 
         # Kelvin-Mandel compliance and stiffness matrices in the material's coordinate system.
         # L = (1, 0, 0)
